@@ -43,11 +43,11 @@ class Clock:
     for instant number i: in model mode a fixed canonical-looking token resolved through the
     table (so the value stays a symbolic int), in replay mode the real rendering of `value`."""
 
-    def __init__(self, now):
+    def __init__(self, now, tz_hours=0):
         from veriflib import timemodel
         self.tm = timemodel
         self.tab = {}
-        timemodel.set_clock(now, self.tab)
+        timemodel.set_clock(now, self.tab, tz_hours * 3600)
 
     def stamp(self, i, value, spelling=0):
         if REPLAY:
